@@ -5,20 +5,32 @@ stride NumPy passes: it then reads the neighbouring cells - memory outside the a
 import numpy as np
 
 
+def _decoy(a, k):
+    """plausible but different values for the cells beside / between the argument's own cells: a kernel that ignores the stride
+    computes with them and (unlike with a constant filler) almost surely returns something else"""
+    a = np.asarray(a)
+    if a.dtype.kind == "f":
+        return (a + (0.123 if k == 0 else -0.077) * (1.0 + np.abs(a))).astype(a.dtype)
+    if a.dtype.kind == "b" or (a.size and a.min() >= 0 and a.max() <= 1):
+        return (1 - a.astype("int64")).astype(a.dtype) if k == 0 else a[::-1].copy()
+    return (a.astype("int64") + (37 if k == 0 else -11)).clip(np.iinfo(a.dtype).min, np.iinfo(a.dtype).max).astype(a.dtype)
+
+
 def _views(a, rng):
     a = np.asarray(a)
     out = []
     if a.ndim == 1:
-        big = np.full((a.size, 3), 77, dtype=a.dtype)
-        big[:, 0] = a[::-1] if a.size else a
-        big[:, 1] = a
+        big = np.empty((a.size, 3), dtype=a.dtype)
+        big[:, 0], big[:, 1], big[:, 2] = _decoy(a, 0), a, _decoy(a, 1)
         out.append(("column of a 2-d array", big[:, 1]))
-        big1 = np.full(2 * a.size + 1, 55, dtype=a.dtype)
+        big1 = np.empty(2 * a.size + 1, dtype=a.dtype)
+        big1[0::2] = np.concatenate([_decoy(a, 1), _decoy(a, 1)[-1:]]) if a.size else 0
         big1[1::2] = a
         out.append(("every other cell", big1[1::2]))
     elif a.ndim == 2:
         out.append(("Fortran order", np.asfortranarray(a)))
-        big = np.full((a.shape[0], 2 * a.shape[1]), 9, dtype=a.dtype)
+        big = np.empty((a.shape[0], 2 * a.shape[1]), dtype=a.dtype)
+        big[:, 1::2] = _decoy(a.ravel(), 0).reshape(a.shape)
         big[:, ::2] = a
         out.append(("every other column", big[:, ::2]))
     return out
